@@ -1,17 +1,20 @@
 """Algebraic normal form of terms (value numbering modulo ring axioms).
 
-poly  := frozenset-like sorted tuple of (mono, coeff)      coeff : Fraction
+poly  := frozenset of (mono, coeff)                       coeff : Fraction != 0
 mono  := (sfactors, chain)
-         sfactors : sorted tuple of (atom, exponent)         commuting scalar factors
+         sfactors : frozenset of (atom, exponent)            commuting scalar factors
          chain    : tuple of atoms                            matmul product, in order
-atom  := hashable tuple  (op, ...)  with normalised children
+atom  := interned Node(op, kids...)  (kids: atoms, polys, constants, tuples of those)
 
 Axioms applied: associativity/commutativity of +, distributivity of scalar
 multiplication, Hadamard product and matmul over +, scalars commute and are
 collected with exponents, (AB)^T = B^T A^T, (A^T)^T = A, x*x = x**2,
 sqrt = **1/2, a/b = a*b**-1, zeros are additive zero, eye is the matmul unit,
 cyclic invariance and linearity of trace, linearity of sum/mean/average,
-A*v (row broadcast) = A @ dg(v), unit reshapes and astype are identities.
+A*v (row broadcast) = A @ dg(v), dg(a)dg(b) = dg(a∘b), unit reshapes and astype
+are identities, read-after-write of subscript stores.
+Products of sums are only distributed while the result stays below
+MAX_MONOMIALS (otherwise the factors are kept as opaque polynomial atoms).
 """
 from __future__ import annotations
 
@@ -20,30 +23,61 @@ from fractions import Fraction
 from .terms import Dim, Term
 
 ONE = Fraction(1)
+MAX_MONOMIALS = 120
 
 
 class NotInLanguage(Exception):
     pass
 
 
+class Node:
+    __slots__ = ("op", "kids")
+
+    def __init__(self, op, kids):
+        self.op = op
+        self.kids = kids
+
+    def __repr__(self):
+        return show_atom(self)
+
+
+_TABLE = {}
+
+
+def A(op, *kids):
+    key = (op,) + kids
+    n = _TABLE.get(key)
+    if n is None:
+        n = Node(op, kids)
+        _TABLE[key] = n
+    return n
+
+
+EYE = A("eye")
+EMPTY_S = frozenset()
+ZERO = frozenset()
+
+
 def P_const(c):
     c = Fraction(c)
     if c == 0:
-        return ()
-    return ((((), ()), c),)
+        return ZERO
+    return frozenset([((EMPTY_S, ()), c)])
 
 
 def P_atom(atom, scalar=False):
     if scalar:
-        return (((((atom, ONE),), ()), ONE),)
-    return ((((), (atom,)), ONE),)
+        return frozenset([((frozenset([(atom, ONE)]), ()), ONE)])
+    return frozenset([((EMPTY_S, (atom,)), ONE)])
 
 
 def _mk(d):
-    return tuple(sorted(((m, c) for m, c in d.items() if c != 0), key=lambda x: repr(x[0])))
+    return frozenset((m, c) for m, c in d.items() if c != 0)
 
 
 def p_add(a, b, sign=1):
+    if not b:
+        return a
     d = dict(a)
     for m, c in b:
         d[m] = d.get(m, 0) + sign * c
@@ -51,27 +85,48 @@ def p_add(a, b, sign=1):
 
 
 def _merge_s(sa, sb):
+    if not sb:
+        return sa
+    if not sa:
+        return sb
     d = dict(sa)
     for a, e in sb:
         d[a] = d.get(a, 0) + e
-    return tuple(sorted(((a, e) for a, e in d.items() if e != 0), key=lambda x: repr(x[0])))
+    return frozenset((a, e) for a, e in d.items() if e != 0)
 
 
 def p_scale(a, c):
+    if c == 1:
+        return a
     return _mk({m: k * c for m, k in a})
 
 
+def _opaque(p):
+    """a polynomial kept as one (non-scalar) factor"""
+    a = single_atom(p)
+    return a if a is not None else A("poly", p)
+
+
+def _too_big(a, b):
+    return len(a) * len(b) > MAX_MONOMIALS and len(a) > 1 and len(b) > 1
+
+
 def p_matmul(a, b):
+    if _too_big(a, b):
+        a = P_atom(_opaque(a))
+        b = P_atom(_opaque(b))
     d = {}
     for (sa, ca), ka in a:
         for (sb, cb), kb in b:
-            chain = tuple(x for x in ca + cb if x != ("eye",)) if (ca and cb) else ca + cb
-            if not chain and (ca or cb):
-                chain = (("eye",),)
-            chain, extra_k = _merge_dg(chain)
-            if extra_k is None:
+            chain = ca + cb
+            if ca and cb:
+                chain = tuple(x for x in chain if x is not EYE)
+                if not chain:
+                    chain = (EYE,)
+            chain, extra = _merge_dg(chain)
+            if extra is None:
                 continue
-            ss, kk = extra_k
+            ss, kk = extra
             m = (_merge_s(_merge_s(sa, sb), ss), chain)
             d[m] = d.get(m, 0) + ka * kb * kk
     return _mk(d)
@@ -79,44 +134,47 @@ def p_matmul(a, b):
 
 def _merge_dg(chain):
     """dg(a) @ dg(b) = dg(a∘b); returns (chain, (scalar factors, coeff)) or (.., None) if zero"""
+    if not any(x.op == "dg" for x in chain):
+        return chain, (EMPTY_S, ONE)
     out = []
-    s = ()
+    s = EMPTY_S
     k = ONE
     for x in chain:
-        if out and x[0] == "dg" and out[-1][0] == "dg":
-            p = p_had(out[-1][1], x[1])
-            out[-1] = ("dg", p)
+        if out and x.op == "dg" and out[-1].op == "dg":
+            out[-1] = A("dg", p_had(out[-1].kids[0], x.kids[0]))
         else:
             out.append(x)
     res = []
     for x in out:
-        if x[0] == "dg":
-            p = x[1]
+        if x.op == "dg":
+            p = x.kids[0]
             if not p:
                 return (), None
             if len(p) == 1:
-                # pull scalars and coefficient out of the diagonal
-                (ps, pc), pk = p[0]
+                ((ps, pc), pk), = p
                 if ps or pk != 1:
                     s = _merge_s(s, ps)
                     k = k * pk
                     if not pc:
                         continue  # dg(scalar) = scalar * eye
-                    x = ("dg", ((((), pc), ONE),))
+                    x = A("dg", frozenset([((EMPTY_S, pc), ONE)]))
         res.append(x)
     if not res and out:
-        res = [("eye",)]
+        res = [EYE]
     return tuple(res), (s, k)
 
 
 def chain_atom(chain):
     if len(chain) == 1:
         return chain[0]
-    return ("chain",) + tuple(chain)
+    return A("chain", *chain)
 
 
 def p_had(a, b):
     """elementwise product (bilinear, commutative)"""
+    if _too_big(a, b):
+        a = P_atom(_opaque(a))
+        b = P_atom(_opaque(b))
     d = {}
     for (sa, ca), ka in a:
         for (sb, cb), kb in b:
@@ -127,21 +185,36 @@ def p_had(a, b):
                 chain = ca
             else:
                 xa, xb = chain_atom(ca), chain_atom(cb)
-                fa = list(xa[1]) if xa[0] == "had" else [(xa, ONE)]
-                fb = list(xb[1]) if xb[0] == "had" else [(xb, ONE)]
+                fa = list(xa.kids[0]) if xa.op == "had" else [(xa, ONE)]
+                fb = list(xb.kids[0]) if xb.op == "had" else [(xb, ONE)]
                 dd = {}
                 for f, e in fa + fb:
                     dd[f] = dd.get(f, 0) + e
-                fs = tuple(sorted(((f, e) for f, e in dd.items() if e != 0), key=lambda x: repr(x[0])))
+                fs = frozenset((f, e) for f, e in dd.items() if e != 0)
                 if not fs:
                     chain = ()
-                elif len(fs) == 1 and fs[0][1] == 1:
-                    chain = (fs[0][0],)
+                elif len(fs) == 1 and next(iter(fs))[1] == 1:
+                    chain = (next(iter(fs))[0],)
                 else:
-                    chain = (("had", fs),)
+                    chain = (A("had", fs),)
             m = (s, chain)
             d[m] = d.get(m, 0) + ka * kb
     return _mk(d)
+
+
+def _rat_pow(k, e):
+    if e.denominator == 1:
+        if k == 0 and e < 0:
+            return None
+        return k ** int(e)
+    if k <= 0:
+        return None
+    num = k.numerator ** (1.0 / e.denominator)
+    den = k.denominator ** (1.0 / e.denominator)
+    rn, rd = round(num), round(den)
+    if rn ** e.denominator == k.numerator and rd ** e.denominator == k.denominator:
+        return Fraction(rn, rd) ** e.numerator
+    return None
 
 
 def p_pow(a, e):
@@ -152,60 +225,41 @@ def p_pow(a, e):
     if e == 0:
         return P_const(1)
     if len(a) == 1:
-        (s, chain), k = a[0]
-        ok = True
-        try:
-            if e.denominator == 1:
-                kk = k ** int(e)
-            else:
-                # rational power of a rational: only exact roots
-                import math
-
-                num = k.numerator ** (1 / e.denominator)
-                den = k.denominator ** (1 / e.denominator)
-                rn, rd = round(num), round(den)
-                if k > 0 and rn ** e.denominator == k.numerator and rd ** e.denominator == k.denominator:
-                    kk = Fraction(rn, rd) ** e.numerator
-                else:
-                    ok = False
-        except Exception:
-            ok = False
-        if ok:
-            s2 = tuple((x, ex * e) for x, ex in s)
+        ((s, chain), k), = a
+        kk = _rat_pow(k, e)
+        if kk is not None:
+            s2 = frozenset((x, ex * e) for x, ex in s)
             if not chain:
-                return ((((tuple(sorted(s2, key=lambda x: repr(x[0])))), ()), kk),)
+                return frozenset([((s2, ()), kk)])
             xa = chain_atom(chain)
-            fa = list(xa[1]) if xa[0] == "had" else [(xa, ONE)]
-            fs = tuple(sorted(((f, ex * e) for f, ex in fa), key=lambda x: repr(x[0])))
-            atom = fs[0][0] if (len(fs) == 1 and fs[0][1] == 1) else ("had", fs)
-            return (((tuple(sorted(s2, key=lambda x: repr(x[0]))), (atom,)), kk),)
-    # power of a sum: opaque
+            fa = list(xa.kids[0]) if xa.op == "had" else [(xa, ONE)]
+            fs = frozenset((f, ex * e) for f, ex in fa)
+            atom = next(iter(fs))[0] if (len(fs) == 1 and next(iter(fs))[1] == 1) else A("had", fs)
+            return frozenset([((s2, (atom,)), kk)])
+    if not a:
+        return ZERO if e > 0 else P_atom(A("div0"), scalar=True)
     scalar = all(not chain for (s, chain), k in a)
-    atom = ("poly", a)
+    atom = A("poly", a)
     if scalar:
-        return ((((((atom, e),)), ()), ONE),)
-    return ((((), (("had", ((atom, e),)),)), ONE),)
+        return frozenset([((frozenset([(atom, e)]), ()), ONE)])
+    return frozenset([((EMPTY_S, (A("had", frozenset([(atom, e)])),)), ONE)])
 
 
 SYMMETRIC_OPS = {"eye", "dg", "zeros"}
 
 
 def t_atom(atom, symmetric):
-    if atom[0] in SYMMETRIC_OPS or atom in symmetric:
+    if atom.op in SYMMETRIC_OPS or atom in symmetric:
         return atom
-    if atom[0] == "t":
-        return atom[1]
-    if atom[0] == "had":
-        return ("had", tuple(sorted(((t_atom(f, symmetric), e) for f, e in atom[1]), key=lambda x: repr(x[0]))))
-    if atom[0] == "chain":
-        return ("chain",) + tuple(t_atom(x, symmetric) for x in reversed(atom[1:]))
-    if atom[0] == "poly":
-        return ("poly", p_T(atom[1], symmetric))
-    if atom[0] in ("inv", "pinv") and len(atom) == 2:
-        return (atom[0], p_T(atom[1], symmetric))
-    if atom[0] == "rank1":  # known 1-D value
-        return atom
-    return ("t", atom)
+    if atom.op == "t":
+        return atom.kids[0]
+    if atom.op == "had":
+        return A("had", frozenset((t_atom(f, symmetric), e) for f, e in atom.kids[0]))
+    if atom.op == "chain":
+        return A("chain", *[t_atom(x, symmetric) for x in reversed(atom.kids)])
+    if atom.op == "poly":
+        return A("poly", p_T(atom.kids[0], symmetric))
+    return A("t", atom)
 
 
 def p_T(a, symmetric=frozenset()):
@@ -219,34 +273,35 @@ def p_T(a, symmetric=frozenset()):
 def single_atom(p):
     """if the poly is exactly one atom with coefficient 1 return it"""
     if len(p) == 1:
-        (s, chain), k = p[0]
+        ((s, chain), k), = p
         if k == 1 and not s and len(chain) == 1:
             return chain[0]
-        if k == 1 and not chain and len(s) == 1 and s[0][1] == 1:
-            return s[0][0]
+        if k == 1 and not chain and len(s) == 1:
+            (x, e), = s
+            if e == 1:
+                return x
     return None
 
 
 def wrap(p):
     a = single_atom(p)
-    return a if a is not None else ("poly", p)
+    return a if a is not None else A("poly", p)
 
 
 def _const_index(f):
-    return isinstance(f, Fraction) or (isinstance(f, tuple) and len(f) == 2 and f[0] == "const" and isinstance(f[1], (int, Fraction)))
+    return isinstance(f, Fraction)
 
 
 class Normalizer:
-    def __init__(self, symmetric=(), scalar_syms=(), opaque_ok=True, rewrite=None):
+    def __init__(self, symmetric=(), scalar_syms=(), rewrite=None):
         self.cache = {}
         self.symmetric = frozenset(symmetric)
         self.scalar_syms = set(scalar_syms)
-        self.unknown_ops = set()
         self.rewrite = rewrite
 
     def nf(self, t):
         if not isinstance(t, Term):
-            return P_atom(("py", self.freeze(t)))
+            return P_atom(A("py", self.freeze(t)))
         r = self.cache.get(t)
         if r is None:
             r = self._nf(t)
@@ -261,7 +316,7 @@ class Normalizer:
         if isinstance(x, tuple):
             return tuple(self.freeze(y) for y in x)
         if isinstance(x, Dim):
-            return ("dim", repr(x))
+            return A("dimv", repr(x))
         return x
 
     def scalar(self, t):
@@ -270,7 +325,7 @@ class Normalizer:
         d = {}
         for (s, chain), k in p:
             if chain:
-                s = _merge_s(s, tuple((x, ONE) for x in chain))
+                s = _merge_s(s, frozenset([(chain_atom(chain), ONE)]))
             m = (s, ())
             d[m] = d.get(m, 0) + k
         return _mk(d)
@@ -285,19 +340,16 @@ class Normalizer:
             v = a[0]
             if isinstance(v, Fraction):
                 return P_const(v)
-            if isinstance(v, bool) or v is None or isinstance(v, str):
-                return P_atom(("const", v), scalar=True)
-            return P_atom(("const", repr(v)), scalar=True)
+            return P_atom(A("const", v if isinstance(v, (bool, str)) or v is None else repr(v)), scalar=True)
         if op == "sym":
             if a[0] in self.scalar_syms:
-                return P_atom(("sym", a[0]), scalar=True)
-            return P_atom(("sym", a[0]))
+                return P_atom(A("sym", a[0]), scalar=True)
+            return P_atom(A("sym", a[0]))
         if op == "dim":
             d = a[0]
-            # linear form over size symbols -> scalar polynomial
             out = P_const(d.c)
             for atom, k in d.lin:
-                out = p_add(out, p_scale(P_atom(("size", repr(atom) if not isinstance(atom, str) else atom), scalar=True), k))
+                out = p_add(out, p_scale(P_atom(A("size", atom if isinstance(atom, str) else repr(atom)), scalar=True), k))
             return out
         if op == "add":
             return p_add(self.nf(a[0]), self.nf(a[1]))
@@ -319,24 +371,24 @@ class Normalizer:
             e = a[1]
             if isinstance(e, Term) and e.op == "const" and isinstance(e.args[0], Fraction):
                 return p_pow(self.nf(a[0]), e.args[0])
-            return P_atom(("pow", wrap(self.nf(a[0])), wrap(self.nf(e))))
+            return P_atom(A("pow", wrap(self.nf(a[0])), wrap(self.nf(e))))
         if op == "sqrt":
             return p_pow(self.nf(a[0]), Fraction(1, 2))
         if op == "T":
             return p_T(self.nf(a[0]), self.symmetric)
-        if op in ("reshape1", "astype", "stale0"):
+        if op in ("reshape1", "astype"):
             return self.nf(a[0])
         if op == "zeros":
-            return ()
+            return ZERO
         if op == "eye":
-            return P_atom(("eye",))
+            return P_atom(EYE)
         if op == "dg":
             p = self.nf(a[0])
-            chain, extra = _merge_dg((("dg", p),))
+            chain, extra = _merge_dg((A("dg", p),))
             if extra is None:
-                return ()
+                return ZERO
             ss, kk = extra
-            return (((ss, chain), kk),)
+            return frozenset([((ss, chain), kk)])
         if op == "trace":
             return self.linear_reduce("trace", a, cyclic=True)
         if op in ("sum", "mean", "average"):
@@ -345,106 +397,112 @@ class Normalizer:
             x, y = self.nf(a[1]), self.nf(a[2])
             if x == y:
                 return x
-            return P_atom(("phi", self.freeze(a[0]), wrap(x), wrap(y)))
+            return P_atom(A("phi", self.freeze(a[0]), wrap(x), wrap(y)))
+        if op == "not" and isinstance(a[0], Term) and a[0].op == "not":
+            return self.nf(a[0].args[0])
         if op == "getitem":
             base, idx = a[0], a[1]
             fi = self.freeze(idx)
-            # read-after-write through a chain of stores
             b = base
             while isinstance(b, Term) and b.op == "store":
                 fj = self.freeze(b.args[1])
                 if fj == fi:
                     return self.nf(b.args[2])
                 if _const_index(fi) and _const_index(fj):
-                    b = b.args[0]  # distinct constant slots
+                    b = b.args[0]
                     continue
                 break
-            return P_atom(("getitem", wrap(self.nf(b)), fi))
+            return P_atom(A("getitem", wrap(self.nf(b)), fi))
         if op == "store":
             base, idx, val = a
             fi = self.freeze(idx)
             if isinstance(base, Term) and base.op == "store" and self.freeze(base.args[1]) == fi:
-                base = base.args[0]  # overwritten slot
-            return P_atom(("store", wrap(self.nf(base)), fi, wrap(self.nf(val))))
+                base = base.args[0]
+            return P_atom(A("store", wrap(self.nf(base)), fi, wrap(self.nf(val))))
         if op == "unk":
-            return P_atom(("unk", a[0], a[1]))
-        # generic: opaque atom with normalised children
-        return P_atom((op,) + tuple(self.freeze(x) for x in a))
+            return P_atom(A("unk", a[0], a[1]))
+        return P_atom(A(op, *[self.freeze(x) for x in a]))
 
     def linear_reduce(self, op, a, cyclic=False):
         inner = self.nf(a[0])
         rest = tuple(self.freeze(x) for x in a[1:])
-        if op == "average" and not any(isinstance(r, tuple) and r and r[0] == "weights" for r in rest):
+        has_w = any(isinstance(r, tuple) and r and r[0] == "weights" for r in rest)
+        if op == "average" and not has_w:
             op = "mean"
-        out = ()
+        has_axis = any(isinstance(r, tuple) and r and r[0] == "axis" for r in rest)
+        out = ZERO
         for (s, chain), k in inner:
             if cyclic and len(chain) > 1:
                 rots = [chain[i:] + chain[:i] for i in range(len(chain))]
-                chain = min(rots, key=repr)
-                # trace(A) = trace(A^T)
                 tchain = tuple(t_atom(x, self.symmetric) for x in reversed(chain))
-                trots = [tchain[i:] + tchain[:i] for i in range(len(tchain))]
-                chain = min([chain] + trots, key=repr)
-            if not chain:
-                atom = (op, ("one",)) + rest
-            else:
-                atom = (op, chain_atom(chain)) + rest
-            scalar_result = cyclic or not any(isinstance(r, tuple) and r and r[0] == "axis" for r in rest)
-            if scalar_result:
-                m = (_merge_s(s, ((atom, ONE),)), ())
+                rots += [tchain[i:] + tchain[:i] for i in range(len(tchain))]
+                chain = min(rots, key=lambda c: tuple(id(x) for x in c))
+            atom = A(op, chain_atom(chain) if chain else A("one"), *rest)
+            if cyclic or not has_axis:
+                m = (_merge_s(s, frozenset([(atom, ONE)])), ())
             else:
                 m = (s, (atom,))
-            out = p_add(out, ((m, k),))
+            out = p_add(out, frozenset([(m, k)]))
         return out
 
 
 # ---------------------------------------------------------------------------
-# pretty printing
+# pretty printing (deterministic: sorted by text)
 # ---------------------------------------------------------------------------
 
 
+def show_any(x, depth=0):
+    if isinstance(x, Node):
+        return show_atom(x, depth)
+    if isinstance(x, frozenset):
+        return show_poly(x, depth)
+    if isinstance(x, tuple):
+        if x and isinstance(x[0], str) and len(x) == 2:
+            return f"{x[0]}={show_any(x[1], depth)}"
+        return "(" + ", ".join(show_any(y, depth) for y in x) + ")"
+    if isinstance(x, Fraction):
+        return str(x) if x.denominator < 1000 else repr(float(x))
+    return str(x)
+
+
 def show_atom(a, depth=0):
-    if depth > 8:
+    if depth > 7:
         return "…"
-    if not isinstance(a, tuple):
-        return str(a)
-    if not a:
-        return "()"
-    op = a[0]
+    if not isinstance(a, Node):
+        return show_any(a, depth)
+    op, k = a.op, a.kids
     d = depth + 1
-    if op == "sym":
-        return str(a[1])
-    if op == "size":
-        return f"#{a[1]}"
+    if op in ("sym", "size"):
+        return ("#" if op == "size" else "") + str(k[0])
     if op == "const":
-        return repr(a[1])
+        return repr(k[0])
     if op == "t":
-        return show_atom(a[1], d) + "ᵀ"
+        return show_atom(k[0], d) + "ᵀ"
     if op == "poly":
-        return "(" + show_poly(a[1], d) + ")"
+        return "(" + show_poly(k[0], d) + ")"
     if op == "chain":
-        return "(" + " @ ".join(show_atom(x, d) for x in a[1:]) + ")"
+        return "(" + " @ ".join(show_atom(x, d) for x in k) + ")"
     if op == "had":
-        return "(" + " ∘ ".join(show_atom(f, d) + (f"^{e}" if e != 1 else "") for f, e in a[1]) + ")"
+        return "(" + " ∘ ".join(sorted(show_atom(f, d) + (f"^{e}" if e != 1 else "") for f, e in k[0])) + ")"
     if op == "getitem":
-        return f"{show_atom(a[1], d)}[{show_atom(a[2], d)}]"
+        return f"{show_any(k[0], d)}[{show_any(k[1], d)}]"
     if op == "slice":
-        return ":".join("" if (isinstance(x, tuple) and x[:2] == ("const", None)) else show_atom(x, d) for x in a[1:])
-    if op == "py":
-        return show_atom(a[1], d)
-    if op == "dg" and len(a) == 2 and isinstance(a[1], tuple) and (not a[1] or isinstance(a[1][0], tuple) and len(a[1][0]) == 2 and isinstance(a[1][0][1], Fraction)):
-        return "dg(" + show_poly(a[1], d) + ")"
-    if isinstance(op, str):
-        return f"{op}(" + ", ".join(show_atom(x, d) for x in a[1:]) + ")"
-    return "(" + ", ".join(show_atom(x, d) for x in a) + ")"
+        return ":".join("" if (isinstance(x, Node) and x.op == "const" and x.kids[0] is None) else show_any(x, d) for x in k)
+    if op in ("py", "dimv"):
+        return show_any(k[0], d)
+    if op == "tuple":
+        return ", ".join(show_any(x, d) for x in k)
+    return f"{op}(" + ", ".join(show_any(x, d) for x in k) + ")"
 
 
 def show_poly(p, depth=0):
     if not p:
         return "0"
+    if depth > 7:
+        return "…"
     parts = []
     for (s, chain), k in p:
-        fs = [show_atom(x, depth + 1) + (f"^{e}" if e != 1 else "") for x, e in s]
+        fs = sorted(show_atom(x, depth + 1) + (f"^{e}" if e != 1 else "") for x, e in s)
         if chain:
             fs.append(" @ ".join(show_atom(x, depth + 1) for x in chain))
         body = "·".join(fs) if fs else "1"
@@ -455,4 +513,4 @@ def show_poly(p, depth=0):
         else:
             ks = str(k) if k.denominator < 1000 else repr(float(k))
             parts.append(f"{ks}·{body}" if fs else ks)
-    return " + ".join(parts).replace("+ -", "- ")
+    return " + ".join(sorted(parts)).replace("+ -", "- ")
